@@ -145,12 +145,13 @@ class PE:
             return '<text>'
         if isinstance(e, ast.UnaryOp) and isinstance(e.op, ast.Not):
             v = self.ev(e.operand, env)
-            return UNKNOWN if v is UNKNOWN else (not v)
+            # the truth value of a symbolic (run-time) value is not a constant
+            return UNKNOWN if (v is UNKNOWN or isinstance(v, Sym)) else (not v)
         if isinstance(e, ast.BoolOp):
             res = None
             for x in e.values:
                 v = self.ev(x, env)
-                if v is UNKNOWN:
+                if v is UNKNOWN or isinstance(v, Sym):
                     return UNKNOWN
                 res = v
                 if isinstance(e.op, ast.And) and not v:
@@ -160,7 +161,7 @@ class PE:
             return res
         if isinstance(e, ast.IfExp):
             c = self.ev(e.test, env)
-            if c is UNKNOWN:
+            if c is UNKNOWN or isinstance(c, Sym):
                 return UNKNOWN
             return self.ev(e.body if c else e.orelse, env)
         if isinstance(e, ast.Compare):
@@ -168,6 +169,10 @@ class PE:
             for op, rn in zip(e.ops, e.comparators):
                 right = self.ev(rn, env)
                 if left is UNKNOWN or right is UNKNOWN:
+                    return UNKNOWN
+                if isinstance(left, Sym) or isinstance(right, Sym):
+                    # a comparison with a run-time value: not a constant (it used to come out as Python's
+                    # comparison of the carrier object, i.e. False -- seed C01f)
                     return UNKNOWN
                 try:
                     r = {ast.Eq: lambda a, b: a == b, ast.NotEq: lambda a, b: a != b, ast.Lt: lambda a, b: a < b, ast.LtE: lambda a, b: a <= b,
@@ -388,7 +393,7 @@ class PE:
             return
         if isinstance(s, ast.If):
             c = self.ev(s.test, env)
-            if c is UNKNOWN:
+            if c is UNKNOWN or isinstance(c, Sym):
                 raise Undecided(f'condition {unparse(s.test)[:60]}')
             self.block(s.body if c else s.orelse, env)
             return
